@@ -48,6 +48,8 @@ type PathState struct {
 	TargetsAt  int // Epoch the targets were collected from (-1 = never)
 	Origins    reference.Origins
 	OriginsAt  int
+	// OriginsOrder != 0: the published origin list is a permutation of the collected one
+	OriginsOrder uint64
 	Epoch      int // bumped by every edit / schema swap in this path
 	ctx        *decoder.PathContext
 }
@@ -74,11 +76,11 @@ type Faults struct {
 var FaultKinds = []string{
 	"reader_error", "path_unlisted", "paths_order", "stale_targets", "stale_origins", "job_dropped",
 	"schema_swap", "hook_error", "hook_partial", "hook_empty", "hook_overflow", "lens_error",
-	"limit_knob", "prefill", "preempt", "hook_call",
+	"limit_knob", "prefill", "preempt", "hook_call", "origins_order",
 }
 
 type Stats struct {
-	Fired [16]int64
+	Fired [17]int64
 }
 
 // fire is norace: concurrent tasks share the store, and the simulator's own
@@ -227,9 +229,21 @@ func (p *PathState) publish() {
 			files[f.Name] = f.File
 		}
 	}
+	origins := p.Origins
+	if k := p.OriginsOrder; k != 0 && len(origins) > 1 {
+		// the server stores what several jobs collected in whatever order they
+		// finished: a seeded permutation of the collected list
+		origins = append(reference.Origins(nil), origins...)
+		st := k
+		for i := len(origins) - 1; i > 0; i-- {
+			st = st*6364136223846793005 + 1442695040888963407
+			j := int((st >> 33) % uint64(i+1))
+			origins[i], origins[j] = origins[j], origins[i]
+		}
+	}
 	p.ctx = &decoder.PathContext{
 		Schema:           p.Schema,
-		ReferenceOrigins: p.Origins,
+		ReferenceOrigins: origins,
 		ReferenceTargets: p.Targets,
 		Files:            files,
 		Functions:        p.Funcs,
@@ -281,6 +295,17 @@ func (s *Store) SwapSchema(path int) bool {
 
 // Quiescent: every path's targets and origins were collected from its current
 // buffers and no reader fault is active.
+// SetsCurrent: every path's collected targets and origins stem from its
+// current text (reader faults may be active).
+func (s *Store) SetsCurrent() bool {
+	for _, p := range s.Paths {
+		if p.TargetsAt != p.Epoch || p.OriginsAt != p.Epoch {
+			return false
+		}
+	}
+	return true
+}
+
 func (s *Store) Quiescent() bool {
 	if len(s.Faults.ReaderError) > 0 || len(s.Faults.Unlisted) > 0 || len(s.Faults.PathVanish) > 0 {
 		return false
@@ -430,6 +455,9 @@ func (s *Store) runJob(j *pendingJob) {
 // Quiesce clears all faults, drops pending jobs and re-collects everything.
 func (s *Store) Quiesce() {
 	s.Faults = Faults{}
+	for _, p := range s.Paths {
+		p.OriginsOrder = 0
+	}
 	s.pending = nil
 	for i := range s.Paths {
 		s.JobStart("targets", i)
@@ -476,5 +504,17 @@ func (s *Store) SetFault(kind string, arg int64, on bool) {
 		}
 	case "lens_error":
 		s.Faults.LensError = on
+	case "origins_order":
+		for _, p := range s.Paths {
+			if on {
+				p.OriginsOrder = uint64(arg) | 1
+				if len(p.Origins) > 1 {
+					s.Stats.fire("origins_order")
+				}
+			} else {
+				p.OriginsOrder = 0
+			}
+			p.publish()
+		}
 	}
 }
